@@ -17,7 +17,8 @@ RULE = ('random CouplingModels assembled from recorded add_onsite / add_coupling
         'get_numpy_Hamiltonian / get_scipy_sparse_Hamiltonian, ExactDiag builders, group_sites, sort_legcharges, '
         'extract_segment, infinite models on windows; Hermiticity iff the recorded terms are Hermitian; predefined models: '
         'pairwise agreement of their representations over sampled parameters. non-trivial = model with >=2 kinds of terms or '
-        '2D lattice; distinct = (lattice, sites, call signature)')
+        '2D lattice; distinct = (lattice, sites, call signature)'
+        ' Also: exporters of MPOModel / NearestNeighborModel (from MPO and from bonds, with and without undo_sort_charge), NearestNeighborModel.from_MPOModel, bond_energies (finite and infinite), bond operators of infinite models from the terms and from the MPO, model-level extract_segment / enlarge_mps_unit_cell, gapped fermionic multi-site couplings, twin multi-couplings over several unit cells.')
 ASSUMPTIONS = ['C19 (lattice enumeration) and C12 (site operators, JW matrices)', 'dimension <= 1100 (dense matrices of every representation are held at once)']
 ANCHORS = {'tenpy/models/model.py': ['*'], 'tenpy/networks/terms.py': ['*'], 'tenpy/networks/mpo.py': ['*'], 'tenpy/algorithms/exact_diag.py': ['*']}
 REQUIRED_COUNTERS = {'models': 40, 'rep.H_MPO': 40, 'rep.H_bond': 10, 'rep.termlist': 30, 'rep.numpy': 20, 'rep.exactdiag': 10,
